@@ -265,7 +265,7 @@ def c12(ctx):
     absorb_bad(ctx, bad)
     bad2, ev2, h2, sk2 = run_traces(ctx, "clock", 8 if quick else 12, 3 if quick else 10, 340, with_sum=True)
     absorb_bad(ctx, bad2)
-    badm, evm, hm_, skm = run_traces(ctx, "clock", 1 if quick else 3, 1, 1300, with_sum=True, label="marathon")
+    badm, evm, hm_, skm = run_traces(ctx, "marathon", 1, 1, 0, with_sum=True, label="marathon")
     absorb_bad(ctx, badm)
     ev2 += evm
     # B1: the board after EVERY legal move of every oracle state (1-ply neighbourhood of the catalogue, both colours)
